@@ -11,6 +11,7 @@ RULE = ("NetSpecs from the full feature lattice with non-negative samples (all b
         "fields equal to the corresponding differences, exactly).  Non-trivial: >= 50 events, records of >= 2 types and >= 1 "
         "record with positive wait or positive blocked time; distinct by spec digest.")
 ASSUMPTIONS = ["exact float equality is used because oracle and code perform the identical subtraction on identical operands"]
+TECHNIQUE = 'property-based testing: generated networks (lattice, slotted-heavy and pre-emptive-schedule x blocking profiles) with a clock / record-arithmetic / next-event-bookkeeping monitor after every event; coverage-guided fuzzing (atheris)'
 WALL = {"quick": 150, "thorough": 540}
 
 
